@@ -213,6 +213,7 @@ type Interp struct {
 	condVars  []int
 	segEnds   []int
 	asmCalls  int // constant-time mode: number of summarised calls of assembly routines
+	fl        *FEmitter // field-level mode (flevel.go): internal/field.Element values are abstract
 }
 
 type frame struct {
@@ -360,6 +361,11 @@ func (in *Interp) symOrConst(v Value) (int, bool) { // returns IR id for either
 func isSym(v Value) bool { _, ok := v.(SymV); return ok }
 
 func (in *Interp) binop(op token.Token, x, y Value, t types.Type, xt types.Type) Value {
+	if in.fl != nil {
+		if r, ok := in.fbinop(op, x, y); ok {
+			return r
+		}
+	}
 	if _, ok := x.(Unknown); ok {
 		return x
 	}
@@ -738,6 +744,9 @@ func (in *Interp) convert(v Value, from, to types.Type) Value {
 	if _, ok := v.(Unknown); ok {
 		return v
 	}
+	if _, ok := v.(BoolF); ok {
+		return v // 0/1 in every integer type
+	}
 	fb, ok1 := from.Underlying().(*types.Basic)
 	tb, ok2 := to.Underlying().(*types.Basic)
 	if sv, isStr := v.(StringV); isStr {
@@ -884,6 +893,11 @@ func (in *Interp) hashMethod(h *HashObj, name string, args []Value) Value {
 }
 
 func (in *Interp) call(fn *ssa.Function, args []Value, free []Value) Value {
+	if in.fl != nil && !in.inInit {
+		if r, ok := in.fcall(fn, args); ok {
+			return r
+		}
+	}
 	switch fn.String() {
 	case "crypto/sha512.New":
 		return IfaceV{v: &HashObj{kind: "sha512"}}
@@ -2310,6 +2324,7 @@ func main() {
 		gowrap  = flag.String("gowrap", "", "output directory for generated Go wrappers (export/<pkg>/verif_t0_<group>.go) used by stream T0")
 		tier    = flag.String("tier", "quick", "quick | thorough (targets marked thorough are skipped in quick)")
 		asm     = flag.Bool("asm", false, "also translate the amd64 field assembly (group FieldAsm)")
+		flevel  = flag.String("flevel", "", "field-level mode: ftargets.json (internal/field.Element abstract; output FL_<Group>_<fn>.lean and -txt)")
 		globals = flag.String("globals", "", "comma separated <pkg>:<tags>:<LeanGroup> triples: dump every package-level variable after interpreting the initialisers")
 	)
 	flag.Parse()
@@ -2320,12 +2335,31 @@ func main() {
 		return
 	}
 	var ts []Target
+	var fts []FTarget
+	if *flevel != "" {
+		b, err := os.ReadFile(*flevel)
+		if err != nil {
+			panic(err)
+		}
+		if err := json.Unmarshal(b, &fts); err != nil {
+			panic(err)
+		}
+		for _, f := range fts {
+			ts = append(ts, Target{Name: f.Name, Group: f.Group, Pkg: f.Pkg, Tags: f.Tags})
+		}
+	} else {
 	b, err := os.ReadFile(*targets)
 	if err != nil {
 		panic(err)
 	}
 	if err := json.Unmarshal(b, &ts); err != nil {
 		panic(err)
+	}
+	}
+	var fresults []FResult
+	ftByName := map[string]FTarget{}
+	for _, f := range fts {
+		ftByName[f.Group+"."+f.Name] = f
 	}
 	// group by (pkg, tags) so that each configuration is loaded once
 	type key struct{ pkg, tags string }
@@ -2376,6 +2410,11 @@ func main() {
 			}
 			for _, t := range byKey[k] {
 				addRes(k, Result{T: t, Err: "package load failed: " + msg})
+				if *flevel != "" {
+					mu.Lock()
+					fresults = append(fresults, FResult{T: ftByName[t.Group+"."+t.Name], Err: "package load failed: " + msg})
+					mu.Unlock()
+				}
 			}
 			return
 		}
@@ -2432,6 +2471,18 @@ func main() {
 			}
 			return
 		}
+		if *flevel != "" {
+			for _, t := range byKey[k] {
+				fr := ftranslate(prog, spkg, globals, ftByName[t.Group+"."+t.Name])
+				if fr.Err != "" && initErr != "" {
+					fr.Err += " (package init: " + initErr + ")"
+				}
+				mu.Lock()
+				fresults = append(fresults, fr)
+				mu.Unlock()
+			}
+			return
+		}
 		for _, t := range byKey[k] {
 			var r Result
 			if t.Fork {
@@ -2449,6 +2500,9 @@ func main() {
 		}()
 	}
 	wg.Wait()
+	if *flevel != "" {
+		os.Exit(frender(fresults, *leanDir, *txt))
+	}
 	for _, k := range keys {
 		results = append(results, resByKey[k]...)
 	}
